@@ -37,7 +37,7 @@ static Case decode(const hv::Bytes& b) {
 	while (r.more() && c.ops.size() < 200) {
 		Op o; o.kind = r.u8() % OP_COUNT; o.a0 = r.u8(); o.a1 = r.u8(); o.a2 = r.u8(); o.flags = r.u8(); o.envSeed = r.u8(); o.rndSel = r.u8(); o.r7 = r.u8();
 		for (auto& e : o.script) {
-			{ const uint8_t sb = r.u8(); e.state = sb >= 160 ? (short) -1 : (short) (sb % HV_NS); } const uint8_t m = r.u8(); e.method = SCRIPT_METHODS[(m & 0x3F) % sizeof SCRIPT_METHODS]; e.inj = (m & 0x80) && (e.state < 0 || hasInjection(e.state)) ? 1 : 0;
+			{ const uint8_t sb = r.u8(); e.state = sb >= 160 ? (short) -1 : (short) (sb % HV_NS); e.skip = sb >= 160 ? (uint8_t) ((sb - 160) % 6) : 0; } const uint8_t m = r.u8(); e.method = SCRIPT_METHODS[(m & 0x3F) % sizeof SCRIPT_METHODS]; e.inj = (m & 0x80) && (e.state < 0 || hasInjection(e.state)) ? 1 : 0;
 			e.action = r.u8() % A_COUNT; e.x = r.u8(); e.y = r.u8(); e.z = r.u8(); e.used = false;
 		}
 		c.ops.push_back(o);
@@ -70,7 +70,8 @@ struct Round { std::vector<Req> pend; std::vector<uint32_t> tags; std::vector<in
 struct Inst {
 	Ctx ctx; ScriptRng rng; Logger logger;
 	alignas(64) unsigned char storage[sizeof(Instance)];
-	Instance* fsm = nullptr;
+	alignas(64) unsigned char storage2[sizeof(Instance)];
+	Instance* fsm = nullptr; Instance* original = nullptr;   // original: kept alive after the walker switched to a copy
 	bool on = false;                 // activated
 	bool everBuilt = false;
 	Model model;
@@ -79,25 +80,30 @@ struct Inst {
 	// C03 lifecycle history
 	bool entered[HV_NS]; const void* addr[HV_NS];
 	std::vector<Req> lastFirstExpected; std::vector<uint32_t> lastFirstTags;
+	int8_t activity[HV_NS]; bool activityKnown = false;
+	bool planExists[HV_REGION_COUNT > 0 ? HV_REGION_COUNT : 1]; bool markS[HV_NS], markF[HV_NS], markS0[HV_NS], markF0[HV_NS];   // C06 bookkeeping (marks outstanding now / at the start of the step)
 	bool inUpdateOrReact = false;
 	bool outstandingMarks = false;   // success/failure marks set outside update()/react() (externally or from a guard) not yet consumed
 	bool modelValid = true;          // false after an op the configuration model does not cover (resynchronised afterwards)
 	bool plansUsed = false;
 
-	Inst() { for (auto& e : entered) e = false; for (auto& a : addr) a = nullptr; }
+	Inst() { for (auto& e : entered) e = false; for (auto& a : addr) a = nullptr; for (auto& p : planExists) p = false; for (int i = 0; i < HV_NS; ++i) markS[i] = markF[i] = false; }
+	void clearPlanBook() { for (auto& p : planExists) p = false; for (int i = 0; i < HV_NS; ++i) markS[i] = markF[i] = false; }
 	~Inst() { destroy(); }
-	void build(uint8_t fill) {
+	void build(uint8_t fill, bool withLogger = true) {
 		std::memset(storage, fill, sizeof storage);
 		ctx.owner = this; rng.ctx = &ctx;
 #ifdef HV_RNG_BUILTIN
-		fsm = new (storage) Instance{ctx, &logger};
+		fsm = new (storage) Instance{ctx, withLogger ? &logger : nullptr};
 #else
-		fsm = new (storage) Instance{ctx, rng, &logger};
+		fsm = new (storage) Instance{ctx, rng, withLogger ? &logger : nullptr};
 #endif
-		everBuilt = true; loggerOn = true;
+		everBuilt = true; loggerOn = withLogger;
 		stateAddresses(*fsm, addr);
 	}
-	void destroy() { if (fsm) { fsm->~Instance(); fsm = nullptr; } }
+	void destroy() { if (fsm) { fsm->~Instance(); fsm = nullptr; } if (original) { const bool r = ctx.record; ctx.record = false; original->~Instance(); original = nullptr; ctx.record = r; } }
+	// C10: continue on a copy of the instance (the original stays alive but idle)
+	void switchToCopy(uint8_t fill) { if (!fsm || original) return; std::memset(storage2, fill, sizeof storage2); Instance* c = new (storage2) Instance{*fsm}; original = fsm; fsm = c; stateAddresses(*fsm, addr); }
 };
 
 struct Session {
@@ -107,6 +113,8 @@ struct Session {
 	std::string failure;            // first violation of the selected property
 	bool nontrivial = false;
 	// non-triviality evidence
+	int planEvents = 0, planLiveness = 0;
+	uint64_t digest = 1469598103934665603ull; bool forceNoLogger = false; int copyAt = -1; uint8_t fillOverride = 0; bool useFillOverride = false; int rngDraws = 0; int recordKinds = 0; unsigned recordKindMask = 0;
 	bool replica = false; int loadsDiffering = 0; int orderNontrivial = 0, payloadMixed = 0, pendingJudged = 0;
 	int cfgChanges = 0, cbChecks = 0, vetoedRounds = 0, multiRound = 0, batches = 0, kindResolved = 0, reentries = 0, loads = 0, replays = 0;
 
@@ -154,7 +162,7 @@ struct OrderModel {
 	OrderModel(const Cfg& c, const Ctx& x) : cfg(c) { for (int i = 0; i < x.nscript; ++i) script.push_back(x.script[i]); }
 	void emit(int s, Method m, int inj) {
 		out.push_back(Rec{s, (int) m, inj});
-		for (auto& e : script) if (!e.used && (e.state == s || e.state < 0) && e.method == (uint8_t) m && e.inj == inj) { e.used = true; if (e.action == A_CONSUME || (e.z & 4)) consumed = true; break; }
+		for (auto& e : script) if (!e.used && (e.state == s || e.state < 0) && e.method == (uint8_t) m && e.inj == inj) { if (e.state < 0 && e.skip > 0) { --e.skip; continue; } e.used = true; if (e.action == A_CONSUME || (e.z & 4)) consumed = true; break; }
 	}
 	void state(int s, Method m, bool injFirst) {
 		if (isRegion(s) && node(s).headless) return;
@@ -194,7 +202,9 @@ struct Walker {
 			if (e.kind == E_ACT_PLAN) in.plansUsed = true;
 			if (e.kind == E_ROUND) inRound = true;
 			// marks set while transitions are being processed are not consumed by this step's plan update
-			if ((e.kind == E_ACT_SUCCEED || e.kind == E_ACT_FAIL) && (inRound || !in.inUpdateOrReact)) in.outstandingMarks = true; } }
+			if ((e.kind == E_ACT_SUCCEED || e.kind == E_ACT_FAIL) && (inRound || !in.inUpdateOrReact)) in.outstandingMarks = true;
+			// C06 bookkeeping outside update()/react(): marks stay until their state exits or the next update()/react() consumes them
+			if (!in.inUpdateOrReact) { if (e.kind == E_ACT_SUCCEED) in.markS[e.a] = true; if (e.kind == E_ACT_FAIL) in.markF[e.a] = true; if (e.kind == E_CB && e.method == (uint8_t) Method::EXIT && e.a == 0) in.markS[e.state] = in.markF[e.state] = false; } } }
 		// C11: library assertions
 		auto& b = hv::breaks();
 		if (b.count) {
@@ -209,6 +219,10 @@ struct Walker {
 		if (S.want("C13")) for (int s = 0; s < HV_NS; ++s) if (in.fsm->isScheduled((StateID) s) != in.fsm->isResumable((StateID) s)) { S.violation("C13", "isScheduled() and isResumable() disagree"); break; }
 		S.cbChecks += (int) x.cbInvariantChecks; x.cbInvariantChecks = 0;
 		lifecycle(in, what);
+		judgeLogger(in, what);
+		judgeReport(in, what, expectOn);
+		for (int i = 0; i < x.n; ++i) { const Ev& e = x.tr[i]; if (e.kind == E_RNG) ++S.rngDraws; if (e.kind >= E_LOG_METHOD && e.kind <= E_LOG_RANDOM) continue; const uint32_t w[6] = {e.kind, e.method, (uint32_t) e.state, (uint32_t) e.a, (uint32_t) e.b, e.tag}; S.digest = hv::fnv((const uint8_t*) w, sizeof w, S.digest); }
+		if (expectOn) { const Cfg c = readCfg(*in.fsm); S.digest = hv::fnv((const uint8_t*) c.active, sizeof c.active, S.digest); S.digest = hv::fnv((const uint8_t*) c.resumable, sizeof c.resumable, S.digest); }
 	}
 
 	bool classifyKnownBreak(Inst& in, const hv::BreakLatch& b) {
@@ -331,6 +345,11 @@ struct Walker {
 	void run();
 	void step(const Op& o, size_t index);
 	void firstActivation(Inst& in);
+	void judgeLogger(Inst& in, const char* what);
+	struct PTask { int origin, dest, type; uint32_t tag; };
+	std::vector<PTask> readPlan(Inst& in, int r);
+	void judgePlans(Inst& in, const std::vector<std::vector<PTask>>& before, const bool wasActive[HV_NS], const char* what);
+	void judgeReport(Inst& in, const char* what, bool on);
 	void saveLoad(Inst& src, Inst& dst);
 	void judgeOrder(Inst& in, const OrderModel& om, const char* what);
 	void judgeHistory(Inst& in, const char* what, const std::vector<Round>& rs, const bool wasActive[HV_NS]);
@@ -499,13 +518,16 @@ void Walker::step(const Op& o, size_t index) {
 	switch (o.kind) {
 	case OP_UPDATE: { installScript(in, o); in.outstandingMarks = false; in.inUpdateOrReact = true;
 		OrderModel om(before, x); om.phase(Method::PRE_UPDATE, true, true, false); om.phase(Method::UPDATE, true, true, false); om.phase(Method::POST_UPDATE, false, false, false);
-		f.update(); afterCall(in, what, true); in.inUpdateOrReact = false; judgeOrder(in, om, what); judgeProcessing(in, what, before, wasActive); break; }
+		std::vector<std::vector<PTask>> plansBefore; for (int r = 0; r < HV_REGION_COUNT; ++r) plansBefore.push_back(readPlan(in, r)); std::memcpy(in.markS0, in.markS, sizeof in.markS); std::memcpy(in.markF0, in.markF, sizeof in.markF);
+		f.update(); afterCall(in, what, true); in.inUpdateOrReact = false; judgeOrder(in, om, what); judgePlans(in, plansBefore, wasActive, what); judgeProcessing(in, what, before, wasActive); break; }
 	case OP_REACT_A: { installScript(in, o); in.outstandingMarks = false; in.inUpdateOrReact = true;
 		OrderModel om(before, x); om.phase(Method::PRE_REACT, !BOTTOMUP, true, true); om.phase(Method::REACT, !BOTTOMUP, true, true); om.phase(Method::POST_REACT, BOTTOMUP, false, true);
-		f.react(EvA{(int) o.a0}); afterCall(in, what, true); in.inUpdateOrReact = false; judgeOrder(in, om, what); judgeProcessing(in, what, before, wasActive); break; }
+		std::vector<std::vector<PTask>> plansBefore; for (int r = 0; r < HV_REGION_COUNT; ++r) plansBefore.push_back(readPlan(in, r)); std::memcpy(in.markS0, in.markS, sizeof in.markS); std::memcpy(in.markF0, in.markF, sizeof in.markF);
+		f.react(EvA{(int) o.a0}); afterCall(in, what, true); in.inUpdateOrReact = false; judgeOrder(in, om, what); judgePlans(in, plansBefore, wasActive, what); judgeProcessing(in, what, before, wasActive); break; }
 	case OP_REACT_B: { installScript(in, o); in.outstandingMarks = false; in.inUpdateOrReact = true;
 		OrderModel om(before, x); // an event no state handles reaches only the library's default handlers: no user callback at all
-		f.react(EvB{(int) o.a0}); afterCall(in, what, true); in.inUpdateOrReact = false; judgeOrder(in, om, what); judgeProcessing(in, what, before, wasActive); break; }
+		std::vector<std::vector<PTask>> plansBefore; for (int r = 0; r < HV_REGION_COUNT; ++r) plansBefore.push_back(readPlan(in, r)); std::memcpy(in.markS0, in.markS, sizeof in.markS); std::memcpy(in.markF0, in.markF, sizeof in.markF);
+		f.react(EvB{(int) o.a0}); afterCall(in, what, true); in.inUpdateOrReact = false; judgeOrder(in, om, what); judgePlans(in, plansBefore, wasActive, what); judgeProcessing(in, what, before, wasActive); break; }
 	case OP_QUERY: case OP_QUERY_B: {
 		installScript(in, o);
 		OrderModel om(before, x); if (o.kind == OP_QUERY) om.phase(Method::QUERY, !BOTTOMUP, false, true);
@@ -534,10 +556,10 @@ void Walker::step(const Op& o, size_t index) {
 	case OP_SUCCEED: case OP_FAIL: { // only active states report progress
 		const StateID t = (StateID) (1 + o.a1 % (HV_NS - 1));
 		if (!f.isActive(t)) { st.cls("ops_skipped_mark_on_inactive_state"); break; }
-		if (o.kind == OP_SUCCEED) f.succeed(t); else f.fail(t);
+		if (o.kind == OP_SUCCEED) { f.succeed(t); in.markS[t] = true; } else { f.fail(t); in.markF[t] = true; }
 		in.outstandingMarks = true;
 		afterCall(in, what, true); break; }
-	case OP_PLAN_APPEND: { in.plansUsed = true; planAppend(f, x, o.a0, o.a1, o.a2, o.a2 >> 3, (o.flags & 2) != 0); afterCall(in, what, true); break; }
+	case OP_PLAN_APPEND: { in.plansUsed = true; planAppend(f, x, o.a0, o.a1, o.a2, o.a2 >> 3, (o.flags & 2) != 0); for (int i = 0; i < x.n; ++i) if (x.tr[i].kind == E_ACT_PLAN && x.tr[i].f > 0.5f) in.planExists[x.tr[i].a] = true; afterCall(in, what, true); break; }
 	case OP_PLAN_CLEAR: f.plan((RegionID) (o.a0 % HV_REGION_COUNT)).clear(); afterCall(in, what, true); break;
 	case OP_PLAN_REMOVE: { auto p = f.plan((RegionID) (o.a0 % HV_REGION_COUNT)); int k = 0; for (auto it = p.begin(); it; ++it, ++k) if ((o.a1 >> (k % 8)) & 1) it.remove(); afterCall(in, what, true); break; }
 	case OP_RESET: {
@@ -552,7 +574,7 @@ void Walker::step(const Op& o, size_t index) {
 	case OP_ENTER_EXIT:
 		if (!MANUAL) break;
 #ifdef HV_MANUAL
-		if (in.on) { f.exit(); in.on = false; afterCall(in, "exit()", false); in.queued.clear(); in.queuedTags.clear(); in.model.off();
+		if (in.on) { f.exit(); in.on = false; afterCall(in, "exit()", false); in.queued.clear(); in.queuedTags.clear(); in.model.off(); in.clearPlanBook();
 			for (int s = 0; s < HV_NS; ++s) if (in.entered[s]) { char b[120]; std::snprintf(b, sizeof b, "state %d still entered after exit() returned", s); S.violation("C03", b); in.entered[s] = false; } }
 		else { x.initialActivation = true; f.enter(); x.initialActivation = false; in.on = true; afterCall(in, "enter()", true); firstActivation(in); }
 		if (S.replica) { Inst& b = *S.inst[1]; b.ctx.beginStep(S.stepNo); std::memcpy(b.ctx.sel, x.sel, sizeof x.sel); std::memcpy(b.ctx.util, x.util, sizeof x.util); std::memcpy(b.ctx.rank, x.rank, sizeof x.rank); std::memcpy(b.ctx.rnd, x.rnd, sizeof x.rnd);
@@ -562,7 +584,7 @@ void Walker::step(const Op& o, size_t index) {
 		break;
 	case OP_SWITCH: if (S.inst[1] && !S.replica) S.cur ^= 1; break;
 	case OP_SAVE_LOAD: if (S.inst[1] && !S.replica) saveLoad(in, *S.inst[S.cur ^ 1]); break;
-	case OP_LOGGER: in.loggerOn = !in.loggerOn; f.attachLogger(in.loggerOn ? &in.logger : nullptr); break;
+	case OP_LOGGER: if (!S.forceNoLogger) { in.loggerOn = !in.loggerOn; f.attachLogger(in.loggerOn ? &in.logger : nullptr); st.cls("logger_toggled"); } break;
 	default: break;
 	}
 	if (in.on) enteredMatchesActive(in, what);
@@ -675,6 +697,195 @@ void Walker::judgeHistory(Inst& in, const char* what, const std::vector<Round>& 
 }
 
 
+
+
+//------------------------------------------------------------------------------
+// C06: plans
+
+std::vector<Walker::PTask> Walker::readPlan(Inst& in, int r) {
+	std::vector<PTask> v; auto p = in.fsm->plan((RegionID) r);
+	for (auto it = p.begin(); it; ++it) { v.push_back(PTask{(int) it->origin, (int) it->destination, (int) it->type, tagOf(*it)}); if (v.size() > 4096) break; }
+	return v;
+}
+
+void Walker::judgePlans(Inst& in, const std::vector<std::vector<PTask>>& before, const bool wasActive[HV_NS], const char* what) {
+	Ctx& x = in.ctx; char buf[500];
+	if (x.overflow || !in.loggerOn) { // plan-issued requests are observed through the logger
+		int fr = x.n; for (int i = 0; i < x.n; ++i) if (x.tr[i].kind == E_ROUND) { fr = i; break; }
+		for (int i = 0; i < fr; ++i) if (x.tr[i].kind == E_ACT_PLAN && x.tr[i].method != 255 && x.tr[i].f > 0.5f) in.planExists[x.tr[i].a] = true;
+		for (int s = 0; s < HV_NS; ++s) in.markS[s] = in.markF[s] = false;
+		for (int i = fr; i < x.n; ++i) { const Ev& e = x.tr[i]; if (e.kind == E_ACT_SUCCEED) in.markS[e.a] = true; if (e.kind == E_ACT_FAIL) in.markF[e.a] = true; if (e.kind == E_CB && e.method == (uint8_t) Method::EXIT && e.a == 0) in.markS[e.state] = in.markF[e.state] = false; }
+		st.cls("plan_steps_not_observable"); return; }
+	// ---- what happened in the update/react phases (before the first guard round)
+	int firstRound = x.n; for (int i = 0; i < x.n; ++i) if (x.tr[i].kind == E_ROUND) { firstRound = i; break; }
+	bool succ[HV_NS], failm[HV_NS]; for (int s = 0; s < HV_NS; ++s) { succ[s] = in.markS0[s] && wasActive[s]; failm[s] = in.markF0[s] && wasActive[s]; }
+	bool stepSucc[HV_NS] = {false}, stepFail[HV_NS] = {false}; int reporters = 0, lastReporter = -1; bool anyRequest = false, anyPlanEdit = false;
+	for (int i = 0; i < firstRound; ++i) { const Ev& e = x.tr[i];
+		if (e.kind == E_ACT_SUCCEED) { succ[e.a] = true; if (!stepSucc[e.a] && !stepFail[e.a]) { ++reporters; lastReporter = e.a; } stepSucc[e.a] = true; }
+		if (e.kind == E_ACT_FAIL) { failm[e.a] = true; if (!stepSucc[e.a] && !stepFail[e.a]) { ++reporters; lastReporter = e.a; } stepFail[e.a] = true; }
+		if (e.kind == E_LOG_TASK && e.state >= 0 && e.state < HV_NS) { if (e.b == 0) succ[e.state] = true; else failm[e.state] = true; } // includes results passed on by planSucceeded/planFailed
+		if (e.kind == E_ACT_REQ) anyRequest = true;
+		if (e.kind == E_ACT_PLAN) anyPlanEdit = true; }
+	// plan-issued requests: recorded transitions nobody scripted, on behalf of a region head
+	struct Issued { int head, type, dest; int at; }; std::vector<Issued> issued;
+	struct Status { int head; bool success; int at; }; std::vector<Status> statuses;
+	for (int i = 0; i < firstRound; ++i) { const Ev& e = x.tr[i];
+		if (e.kind == E_LOG_TRANSITION && !(i > 0 && x.tr[i - 1].kind == E_ACT_REQ)) issued.push_back(Issued{e.state, e.a, e.b, i});
+		if (e.kind == E_CB && (e.method == (uint8_t) Method::PLAN_SUCCEEDED || e.method == (uint8_t) Method::PLAN_FAILED) && e.a == 0) statuses.push_back(Status{e.state, e.method == (uint8_t) Method::PLAN_SUCCEEDED, i}); }
+	st.cls("plan_tasks_executed", issued.size()); st.cls("plan_status_callbacks", statuses.size());
+	S.planEvents += (int) issued.size() + (int) statuses.size();
+	// ---- safety: every execution is justified, happens once, removes its task
+	std::vector<std::vector<PTask>> work = before;   // tasks still in the plans as the step proceeds (appends by scripts are added when seen)
+	{ size_t ii = 0;
+	  for (int i = 0; i < firstRound; ++i) { const Ev& e = x.tr[i];
+		if (e.kind == E_ACT_PLAN && e.method != 255 && e.f > 0.5f) { work[e.a].push_back(PTask{e.state, e.b, e.method, e.tag == NO_TAG ? NO_TAG : e.tag}); in.planExists[e.a] = true; }
+		if (e.kind == E_ACT_PLAN && e.method == 255) work[e.a].clear();
+		while (ii < issued.size() && issued[ii].at == i) {
+			const Issued& q = issued[ii++];
+			if (q.head < 0 || q.head >= HV_NS || !isRegion(q.head)) { std::snprintf(buf, sizeof buf, "a transition was requested on behalf of state %d, which is no region head, without anybody requesting it (%s, step %u)", q.head, what, S.stepNo); S.violation("C06", buf); continue; }
+			const int r = node(q.head).region; auto& plan = work[r];
+			// the first task, in order, with an active origin that succeeded and this destination, before any task with an inactive origin
+			int found = -1; for (size_t k = 0; k < plan.size(); ++k) { if (!wasActive[plan[k].origin]) break; if (plan[k].dest == q.dest && succ[plan[k].origin]) { found = (int) k; break; } }
+			if (found < 0) { std::snprintf(buf, sizeof buf, "region %d requested %s->%d on behalf of its plan, but the plan holds no task to %d whose origin is active and succeeded (and that is not behind a task with an inactive origin) (%s, step %u)", q.head, TTN[q.type % 7], q.dest, q.dest, what, S.stepNo); S.violation("C06", buf); continue; }
+			if (plan[found].type != q.type) { if (!(q.type == T_CHANGE && S.known("F12"))) { std::snprintf(buf, sizeof buf, "task %d->%d of kind %s was executed as %s (%s, step %u)", plan[found].origin, plan[found].dest, TTN[plan[found].type % 7], TTN[q.type % 7], what, S.stepNo); S.violation("C06", buf); } }
+			plan.erase(plan.begin() + found); }
+	  } }
+	// the plans after the step = what remains (the library also empties a plan when it reports success)
+	for (int r = 0; r < HV_REGION_COUNT; ++r) {
+		std::vector<PTask> now = readPlan(in, r);
+		bool lifecycleAfter = false; for (int i = firstRound; i < x.n; ++i) if (x.tr[i].kind == E_ACT_PLAN) lifecycleAfter = true; // plan edits from enter/exit/guards afterwards: not tracked here
+		if (lifecycleAfter) continue;
+		bool same = now.size() == work[r].size(); for (size_t k = 0; same && k < now.size(); ++k) same = now[k].origin == work[r][k].origin && now[k].dest == work[r][k].dest && now[k].type == work[r][k].type && now[k].tag == work[r][k].tag;
+		if (!same) { std::snprintf(buf, sizeof buf, "plan of region %d holds %zu tasks after the step, %zu were expected to remain (executed tasks are removed exactly once, others stay) (%s, step %u)", r, now.size(), work[r].size(), what, S.stepNo); S.violation("C06", buf); }
+	}
+	// status callbacks need a reason: some state reported the same result earlier in this step (or carried the mark into it)
+	for (auto& sc : statuses) {
+		bool reason = false;
+		for (int i = 0; i < sc.at; ++i) { const Ev& e = x.tr[i]; if (e.kind == (sc.success ? E_ACT_SUCCEED : E_ACT_FAIL)) reason = true; if (e.kind == E_CB && e.method == (uint8_t) (sc.success ? Method::PLAN_SUCCEEDED : Method::PLAN_FAILED) && e.a == 0 && e.state != sc.head) reason = true; }
+		for (int s = 0; s < HV_NS; ++s) if (wasActive[s] && (sc.success ? in.markS0[s] : in.markF0[s])) reason = true;
+		if (!reason) { std::snprintf(buf, sizeof buf, "%s delivered to state %d although no state reported %s in this step (%s, step %u)", sc.success ? "planSucceeded" : "planFailed", sc.head, sc.success ? "success" : "failure", what, S.stepNo); S.violation("C06", buf); }
+		if (!wasActive[sc.head]) { std::snprintf(buf, sizeof buf, "plan status delivered to inactive state %d", sc.head); S.violation("C06", buf); }
+	}
+	// ---- liveness under the statement's premises, literally: exactly one reporter s in the step, s is a sub-state (not the head) of a
+	// plan-owning region r with no other plan-owning region between them, nothing else reported, no transition requested in the phases
+	bool carried = false; for (int s = 0; s < HV_NS; ++s) if (wasActive[s] && (in.markS0[s] || in.markF0[s])) carried = true;
+	if (reporters == 1 && !anyRequest && !anyPlanEdit && !carried && in.loggerOn && wasActive[lastReporter]) {
+		const int s0 = lastReporter; int r = -1;
+		for (int c = node(s0).parent; c >= 0; c = node(c).parent) if (in.planExists[node(c).region]) { r = c; break; }
+		// F13: the per-step status is one accumulator: a report made in a phase that visits sub-states before their head (postUpdate; preReact/react
+		// with bottom-up reactions; postReact with top-down reactions) is inherited by the head, which then counts as having reported itself
+		bool headAfterSubs = false;
+		for (int i = 0; i < firstRound; ++i) if ((x.tr[i].kind == E_ACT_SUCCEED || x.tr[i].kind == E_ACT_FAIL) && x.tr[i].a == s0) { Method pm = Method::NONE; for (int k = i - 1; k >= 0; --k) if (x.tr[k].kind == E_CB) { pm = (Method) x.tr[k].method; break; }
+			if (x.tr[i].state != s0) headAfterSubs = true; // reported on behalf of another state: attributed to the caller
+			headAfterSubs = headAfterSubs || pm == Method::POST_UPDATE || ((pm == Method::PRE_REACT || pm == Method::REACT) && BOTTOMUP) || (pm == Method::POST_REACT && !BOTTOMUP) || pm == Method::PLAN_SUCCEEDED || pm == Method::PLAN_FAILED; }
+		if (r >= 0 && wasActive[r] && headAfterSubs && hv::opts().isKnown("F13")) { st.cls("plan_liveness_steps_skipped_F13"); r = -1; }
+		if (r >= 0 && wasActive[r]) {
+			st.cls("plan_liveness_steps"); ++S.planLiveness;
+			const auto& plan = before[node(r).region];
+			if (stepFail[s0]) {
+				if (!(isRegion(r) && node(r).headless)) { bool got = false; for (auto& sc : statuses) if (sc.head == r && !sc.success) got = true;
+					if (!got) { std::snprintf(buf, sizeof buf, "sub-state %d of plan-owning region %d failed, nobody else reported, but the head did not receive planFailed (%s, step %u)", s0, r, what, S.stepNo); S.violation("C06", buf); } }
+			} else if (plan.empty()) {
+				if (!(isRegion(r) && node(r).headless)) { bool got = false; for (auto& sc : statuses) if (sc.head == r && sc.success) got = true;
+					if (!got) { std::snprintf(buf, sizeof buf, "sub-state %d of region %d succeeded, its plan has no tasks left, but the head did not receive planSucceeded (%s, step %u)", s0, r, what, S.stepNo); S.violation("C06", buf); } }
+			} else {
+				for (size_t k = 0; k < plan.size(); ++k) { if (!wasActive[plan[k].origin]) break;
+					if (plan[k].origin != s0) continue;
+					bool got = false; for (auto& q : issued) if (q.head == r && q.dest == plan[k].dest) got = true;
+					if (!got) { std::snprintf(buf, sizeof buf, "task %d->%d of region %d was not executed although its origin is active and succeeded in this step and nothing else happened (%s, step %u)", plan[k].origin, plan[k].dest, r, what, S.stepNo); S.violation("C06", buf); break; }
+					if (plan[k].origin == plan[k].dest) break; // a cyclic task consumes the success
+				}
+			}
+		}
+	}
+	// ---- marks never survive the step that consumed them: only marks set after the phases (guards, plan callbacks during processing) stay
+	for (int s = 0; s < HV_NS; ++s) in.markS[s] = in.markF[s] = false;
+	for (int i = firstRound; i < x.n; ++i) { const Ev& e = x.tr[i]; if (e.kind == E_ACT_SUCCEED) in.markS[e.a] = true; if (e.kind == E_ACT_FAIL) in.markF[e.a] = true;
+		if (e.kind == E_CB && e.method == (uint8_t) Method::EXIT && e.a == 0) in.markS[e.state] = in.markF[e.state] = false; }
+}
+
+//------------------------------------------------------------------------------
+// C16: logger records mirror callbacks and actions; structure report mirrors the configuration
+
+void Walker::judgeLogger(Inst& in, const char* what) {
+	Ctx& x = in.ctx; char buf[300];
+	if (x.overflow) return;
+	if (!in.loggerOn) { for (int i = 0; i < x.n; ++i) if (x.tr[i].kind >= E_LOG_METHOD && x.tr[i].kind <= E_LOG_RANDOM) { S.violation("C16", std::string("a record reached a detached logger during ") + what); break; } return; }
+#ifdef HV_VERBOSE_LOG
+	const bool verbose = true;
+#else
+	const bool verbose = false;
+#endif
+	int lastLog = -1; bool lastLogUsed = true;
+	for (int i = 0; i < x.n; ++i) {
+		const Ev& e = x.tr[i];
+		switch (e.kind) {
+		case E_LOG_METHOD:
+			// an unanswered record is fine in verbose mode (every method of every state is logged) and for the react/query family
+			// (the library cannot tell whether the state handles this event type)
+			if (!lastLogUsed && !verbose) { const Ev& l = x.tr[lastLog]; const Method m = (Method) l.method;
+				if (!(m == Method::PRE_REACT || m == Method::REACT || m == Method::POST_REACT || m == Method::QUERY)) { std::snprintf(buf, sizeof buf, "logger recorded %s of state %d but that callback was not invoked (%s, step %u)", MN[l.method], l.state, what, S.stepNo); S.violation("C16", buf); } }
+			lastLog = i; lastLogUsed = false; S.recordKindMask |= 1u; break;
+		case E_CB:
+			if (lastLog < 0 || x.tr[lastLog].state != e.state || x.tr[lastLog].method != e.method) { std::snprintf(buf, sizeof buf, "%s of state %d was invoked without being recorded by the attached logger immediately before (%s, step %u)", MN[e.method], e.state, what, S.stepNo); S.violation("C16", buf); }
+			lastLogUsed = true; break;
+		case E_ACT_REQ: {
+			const Ev* n = i + 1 < x.n ? &x.tr[i + 1] : nullptr; S.recordKindMask |= 2u;
+			if (!n || n->kind != E_LOG_TRANSITION || n->state != e.state || n->a != e.a || n->b != e.b) { std::snprintf(buf, sizeof buf, "request %s->%d from %d was not recorded (or recorded with other ids) by the logger (%s, step %u)", TTN[e.a % 7], e.b, e.state, what, S.stepNo); S.violation("C16", buf); }
+			break; }
+		case E_LOG_TRANSITION: {
+			const Ev* p = i > 0 ? &x.tr[i - 1] : nullptr;
+			if (!(p && p->kind == E_ACT_REQ)) { // issued by a plan task on behalf of the region head
+				if (!(in.plansUsed && e.state >= 0 && isRegion(e.state))) { std::snprintf(buf, sizeof buf, "logger recorded a transition %s->%d from %d that nobody requested (%s, step %u)", TTN[e.a % 7], e.b, e.state, what, S.stepNo); S.violation("C16", buf); } else S.recordKindMask |= 64u; }
+			break; }
+		case E_ACT_CANCEL: { const Ev* n = i + 1 < x.n ? &x.tr[i + 1] : nullptr; S.recordKindMask |= 4u;
+			if (!n || n->kind != E_LOG_CANCEL || n->state != e.state) { std::snprintf(buf, sizeof buf, "cancelPendingTransitions() by state %d was not recorded by the logger (%s, step %u)", e.state, what, S.stepNo); S.violation("C16", buf); } break; }
+		case E_LOG_CANCEL: if (!(i > 0 && x.tr[i - 1].kind == E_ACT_CANCEL)) S.violation("C16", "logger recorded a cancellation nobody issued"); break;
+		case E_ACT_SUCCEED: case E_ACT_FAIL: { const Ev* n = i + 1 < x.n ? &x.tr[i + 1] : nullptr; S.recordKindMask |= 8u;
+			if (!n || n->kind != E_LOG_TASK || n->state != e.a || n->b != (e.kind == E_ACT_SUCCEED ? 0 : 1)) { std::snprintf(buf, sizeof buf, "%s of state %d was not recorded (or recorded with other ids) by the logger (%s, step %u)", e.kind == E_ACT_SUCCEED ? "succeed()" : "fail()", e.a, what, S.stepNo); S.violation("C16", buf); } break; }
+		case E_LOG_SELECT: { S.recordKindMask |= 16u; if (e.state >= 0 && e.state < HV_NS && !(isRegion(e.state) && node(e.state).headless) && e.a != (int) x.sel[e.state]) { std::snprintf(buf, sizeof buf, "logger recorded select resolution %d for region %d, select() returned %d (%s, step %u)", e.a, e.state, (int) x.sel[e.state], what, S.stepNo); S.violation("C16", buf); } break; }
+		case E_LOG_UTILITY: case E_LOG_RANDOM: S.recordKindMask |= 32u; if (e.state < 0 || e.state >= HV_NS || !isRegion(e.state)) S.violation("C16", "utility/random resolution recorded for a state that is not a region"); break;
+		case E_LOG_PLAN: { // followed by the head's planSucceeded / planFailed (unless the head is anonymous)
+			S.recordKindMask |= 128u; break; }
+		default: break;
+		}
+	}
+	if (!lastLogUsed && !verbose && lastLog >= 0) { const Ev& l = x.tr[lastLog]; const Method m = (Method) l.method;
+		if (!(m == Method::PRE_REACT || m == Method::REACT || m == Method::POST_REACT || m == Method::QUERY)) { std::snprintf(buf, sizeof buf, "logger recorded %s of state %d but that callback was not invoked (%s, step %u)", MN[l.method], l.state, what, S.stepNo); S.violation("C16", buf); } }
+}
+
+static const char* stateTypeName(int s) {
+	switch (s) {
+#define HV_TN(N) case N: return typeid(St<N>).name();
+	HV_FOR_EACH_STATE(HV_TN)
+#undef HV_TN
+	default: return nullptr; }
+}
+
+void Walker::judgeReport(Inst& in, const char* what, bool on) {
+	Instance& f = *in.fsm; char buf[300];
+	const auto& str = f.structure(); const auto& act = f.activityHistory();
+	if ((int) str.count() != HV_NS || (int) act.count() != HV_NS) { S.violation("C16", "structure()/activityHistory() do not have one entry per state"); return; }
+	for (int s = 0; s < HV_NS; ++s) {
+		const bool a = on && f.isActive((StateID) s);
+		if (str[s].isActive != a) { std::snprintf(buf, sizeof buf, "after %s (step %u) structure()[%d].isActive is %d but isActive(%d) is %d", what, S.stepNo, s, (int) str[s].isActive, s, (int) a); S.violation("C16", buf); break; }
+		const char* tn = stateTypeName(s);
+		if ((tn == nullptr) != (str[s].name == nullptr) || (tn && std::strcmp(tn, str[s].name) != 0)) { std::snprintf(buf, sizeof buf, "structure()[%d] does not describe state %d (name %s)", s, s, str[s].name ? str[s].name : "(null)"); S.violation("C16", buf); break; }
+	}
+	// activity history: unchanged, or the saturating successor of the previous value for the state's current condition
+	int8_t now[HV_NS]; for (int s = 0; s < HV_NS; ++s) now[s] = act[s];
+	if (in.activityKnown) {
+		bool updated = false; for (int s = 0; s < HV_NS; ++s) if (now[s] != in.activity[s]) updated = true;
+		if (updated) { st.cls("report_updates");
+			for (int s = 0; s < HV_NS; ++s) { if (isRegion(s) && node(s).headless) continue;
+				const bool a = on && f.isActive((StateID) s); const int o = in.activity[s];
+				const int expect = a ? (o < 0 ? 1 : (o < 127 ? o + 1 : o)) : (o > 0 ? -1 : (o > -128 ? o - 1 : o));
+				if (now[s] != expect) { std::snprintf(buf, sizeof buf, "after %s (step %u) activityHistory()[%d] went from %d to %d; state is %s, expected %d", what, S.stepNo, s, o, (int) now[s], a ? "active" : "inactive", expect); S.violation("C16", buf); break; } } }
+	}
+	for (int s = 0; s < HV_NS; ++s) { if (isRegion(s) && node(s).headless) continue; const bool a = on && f.isActive((StateID) s); if (now[s] != 0 && (now[s] > 0) != a && in.activityKnown) { /* sign may lag when the report was not refreshed; (iii) covers isActive */ } }
+	std::memcpy(in.activity, now, sizeof now); in.activityKnown = true;
+}
+
 //------------------------------------------------------------------------------
 // C08: save(src) -> load(dst)
 
@@ -718,7 +929,7 @@ void Walker::saveLoad(Inst& src, Inst& dst) {
 	const_cast<const Instance&>(*dst.fsm).save(g2.buf);
 	if (std::memcmp(g.buf.data(), g2.buf.data(), Instance::SerialBuffer::BYTE_COUNT) != 0) { std::snprintf(buf, sizeof buf, "saving the loaded instance gives a different buffer than the one it was loaded from (step %u)", S.stepNo); S.violation("C08", buf); }
 	for (int i = 0; i < 64; ++i) if (g2.pre[i] != 0xA5 || g2.post[i] != 0x5A) { S.violation("C08", "save() wrote outside the serialization buffer"); break; }
-	dst.queued.clear(); dst.queuedTags.clear(); dst.outstandingMarks = false;
+	dst.queued.clear(); dst.queuedTags.clear(); dst.outstandingMarks = false; dst.clearPlanBook();
 	if (dst.on) { dst.model.cfg = readCfg(*dst.fsm); enteredMatchesActive(dst, "load()"); }
 	else { dst.model.off(); for (int s = 0; s < HV_NS; ++s) if (dst.entered[s]) { std::snprintf(buf, sizeof buf, "state %d still entered after loading an inactive instance", s); S.violation("C03", buf); dst.entered[s] = false; } }
 }
@@ -784,7 +995,7 @@ void Walker::run() {
 		in.ctx.beginStep(0);
 		in.ctx.initialActivation = true;
 		hv::breaks() = hv::BreakLatch{};
-		in.build(c.hdr[4]);
+		in.build(S.useFillOverride ? S.fillOverride : c.hdr[4], !S.forceNoLogger);
 		if (!MANUAL) { in.on = true; afterCall(in, "construction", true); firstActivation(in); }
 		else {
 			char why[200];
@@ -795,7 +1006,7 @@ void Walker::run() {
 		}
 		in.ctx.initialActivation = false;
 	}
-	for (size_t i = 0; i < c.ops.size() && S.failure.empty(); ++i) step(c.ops[i], i);
+	for (size_t i = 0; i < c.ops.size() && S.failure.empty(); ++i) { if ((int) i == S.copyAt && S.inst[S.cur]->on) { S.inst[S.cur]->switchToCopy((uint8_t) (S.fillOverride ^ 0x3C)); st.cls("continued_on_a_copy"); } step(c.ops[i], i); }
 	// destruction: an automatically activated instance exits every entered state exactly once
 	for (int k = 0; k < 2; ++k) if (S.inst[k]) {
 		Inst& in = *S.inst[k];
@@ -827,6 +1038,17 @@ static std::string hv_run(const hv::Bytes& b, hv::Stats& st) {
 	Session S(st, c);
 	Walker w(S);
 	w.run();
+	if (S.prop == "C10" && S.failure.empty()) { // the same case in storage with other previous contents, at another address, continued on a copy from a generated point on
+		hv::Stats scratch; Session S2(scratch, c); S2.useFillOverride = true; S2.fillOverride = (uint8_t) ~c.hdr[4]; S2.copyAt = c.ops.empty() ? -1 : (int) (c.hdr[6] % (c.ops.size() + 1));
+		Walker w2(S2); w2.run();
+		if (S2.digest != S.digest) { char b[200]; std::snprintf(b, sizeof b, "C10 the same case behaves differently in storage pre-filled with 0x%02x (continued on a copy from op %d) than in storage pre-filled with 0x%02x", (unsigned) S2.fillOverride, S2.copyAt, (unsigned) c.hdr[4]); S.failure = b; }
+		st.cls("placement_differential_runs"); if (S2.copyAt >= 0 && S2.copyAt < (int) c.ops.size()) st.cls("runs_continued_on_a_copy");
+	}
+	if (S.prop == "C16" && S.failure.empty()) { // differential: the same case with no logger ever attached behaves identically
+		hv::Stats scratch; Session S2(scratch, c); S2.forceNoLogger = true; Walker w2(S2); w2.run();
+		if (S2.digest != S.digest) S.failure = "C16 the same case behaves differently (callbacks / actions / configurations) when no logger is attached";
+		st.cls("logger_differential_runs");
+	}
 	st.cls("ops_total", c.ops.size());
 	bool nt = false;
 	const std::string& p = S.prop;
@@ -835,8 +1057,11 @@ static std::string hv_run(const hv::Bytes& b, hv::Stats& st) {
 	else if (p == "C03") nt = S.reentries >= 1 || S.loads + S.replays >= 1 || S.cfgChanges >= 2;
 	else if (p == "C04") nt = S.vetoedRounds >= 1 || S.multiRound >= 1;
 	else if (p == "C05") nt = S.orderNontrivial >= 1;
+	else if (p == "C10") nt = S.cfgChanges >= 1 || S.rngDraws >= 1;
+	else if (p == "C06" || p == "C07") nt = S.planEvents >= 1;
 	else if (p == "C08") nt = S.loadsDiffering >= 1;
 	else if (p == "C09") nt = S.replays >= 1 && (S.vetoedRounds >= 1 || S.batches >= 1 || S.multiRound >= 1);
+	else if (p == "C16") { int k = 0; for (unsigned m = S.recordKindMask; m; m >>= 1) k += m & 1; nt = k >= 4; }
 	else if (p == "C13") nt = S.pendingJudged >= 1 && S.kindResolved >= 1;
 	else if (p == "C14") nt = S.payloadMixed >= 1;
 	else nt = S.cfgChanges >= 1;
@@ -855,7 +1080,7 @@ static std::string hv_render(const hv::Bytes& b) {
 		else if (op.kind == OP_SUCCEED || op.kind == OP_FAIL) o << " " << 1 + op.a1 % (HV_NS - 1);
 		o << " env=" << (int) op.envSeed << "/" << (int) op.rndSel;
 		for (auto& e : op.script) if (e.action != A_NONE) {
-			o << " {" << (e.state < 0 ? std::string("*") : std::to_string(e.state)) << "." << MN[e.method] << (e.inj ? "(inj)" : "") << ": " << ACTN[e.action];
+			o << " {" << (e.state < 0 ? std::string("*") + (e.skip ? "+" + std::to_string((int) e.skip) : "") : std::to_string(e.state)) << "." << MN[e.method] << (e.inj ? "(inj)" : "") << ": " << ACTN[e.action];
 			if (e.action == A_REQ || e.action == A_BURST) { int t = e.x, d = e.y; saneRequest(t, d); o << " " << TTN[t] << "->" << d << ((e.z & 2) ? " +cancel" : "") << ((e.z & 4) ? " +consume" : ""); }
 			o << "}";
 		}
@@ -871,7 +1096,7 @@ static std::vector<int> profileWeights(const std::string& p) {
 		return std::vector<int>{ 6,  3,  0,  1, 12,  3,  0,  0,  0,  0,  1,  1,  0,  0,  1,  0,  0,  0};
 	if (p == "C02") return std::vector<int>{ 6,  2,  0,  1, 12,  5,  0,  0,  0,  0,  2,  1,  0,  0,  1,  0,  0,  0};
 	if (p == "C05") return std::vector<int>{ 6,  6,  2,  6,  8,  1,  0,  0,  0,  0,  1,  1,  0,  0,  1,  0,  2,  0};
-	if (p == "C06") return std::vector<int>{10,  4,  1,  0,  4,  0,  3,  2,  8,  1,  1,  1,  0,  0,  1,  0,  0,  2};
+	if (p == "C06") return std::vector<int>{10,  4,  1,  0,  4,  0,  3,  2,  8,  1,  1,  1,  0,  0,  0,  0,  0,  2};
 	if (p == "C08") return std::vector<int>{ 3,  1,  0,  0, 10,  2,  0,  0,  1,  0,  1,  2,  6,  0,  0,  4,  0,  0};
 	return std::vector<int>{ 6,  3,  1,  2, 10,  3,  1,  1,  2,  1,  1,  1,  1,  0,  1,  1,  1,  1};
 }
